@@ -13,6 +13,23 @@ func (ctx context) generatePrimaryTable(ta sql.Table, cols columnsCode) []gen.De
 	goTypeName := ta.TableName()
 	sqlTableName := gen.SQLTableName(goTypeName)
 
+	// the multiple-column forms "(a, b) VALUES ($1, $2)" and "SET (a, b) = ($1, $2)" are
+	// not valid SQL for zero columns, and PostgreSQL >= 10 refuses "SET (a) = ($1)"
+	var insertClause, setClause, valueArgs string
+	switch cols.columnsCount - 1 {
+	case 0: // a table made of its id
+		insertClause = "DEFAULT VALUES"
+		setClause = "id = id"
+	case 1:
+		insertClause = fmt.Sprintf("(%s) VALUES (%s)", cols.sqlColumnNamesNoPrimary, cols.sqlPlaceholdersNoPrimary)
+		setClause = fmt.Sprintf("%s = %s", cols.sqlColumnNamesNoPrimary, cols.sqlPlaceholdersNoPrimary)
+		valueArgs = ", " + cols.goValueFieldsNoPrimary
+	default:
+		insertClause = fmt.Sprintf("(\n\t\t%s\n\t\t) VALUES (\n\t\t%s\n\t\t)", cols.sqlColumnNamesNoPrimary, cols.sqlPlaceholdersNoPrimary)
+		setClause = fmt.Sprintf("(\n\t\t%s\n\t\t) = (\n\t\t%s\n\t\t)", cols.sqlColumnNamesNoPrimary, cols.sqlPlaceholdersNoPrimary)
+		valueArgs = ", " + cols.goValueFieldsNoPrimary
+	}
+
 	content := fmt.Sprintf(`
 func scanOne%[1]s(row scanner) (%[1]s, error) {
 	var item %[1]s
@@ -85,23 +102,15 @@ func Scan%[1]ss(rs *sql.Rows) (%[1]ss, error) {
 
 // Insert one %[1]s in the database and returns the item with id filled.
 func (item %[1]s) Insert(tx DB) (out %[1]s, err error) {
-	row := tx.QueryRow(`+"`"+`INSERT INTO %[3]s (
-		%[5]s
-		) VALUES (
-		%[6]s
-		) RETURNING %[10]s;
-		`+"`,"+`%[7]s)
+	row := tx.QueryRow(`+"`"+`INSERT INTO %[3]s %[11]s RETURNING %[10]s;
+		`+"`"+`%[13]s)
 	return Scan%[1]s(row)
 }
 
 // Update %[1]s in the database and returns the new version.
 func (item %[1]s) Update(tx DB) (out %[1]s, err error) {
-	row := tx.QueryRow(`+"`"+`UPDATE %[3]s SET (
-		%[5]s
-		) = (
-		%[6]s
-		) WHERE id = $%[8]d RETURNING %[10]s;
-		`+"`,"+`%[7]s, item.%[9]s)
+	row := tx.QueryRow(`+"`"+`UPDATE %[3]s SET %[12]s WHERE id = $%[8]d RETURNING %[10]s;
+		`+"`"+`%[13]s, item.%[9]s)
 	return Scan%[1]s(row)
 }
 
@@ -123,6 +132,7 @@ func Delete%[1]ssByIDs(tx DB, ids ...%[2]s) ([]%[2]s, error) {
 		cols.goScanFields, cols.sqlColumnNamesNoPrimary, cols.sqlPlaceholdersNoPrimary, cols.goValueFieldsNoPrimary,
 		cols.columnsCount, ta.Columns[primaryIndex].Field.Field.Name(),
 		cols.sqlColumnNames,
+		insertClause, setClause, valueArgs,
 	)
 
 	var out []gen.Declaration
